@@ -1,5 +1,6 @@
 import CppUModel.Base.Proto
 import CppUModel.Model.MockValue
+import CppUModel.Model.MockNamedValueList
 import CppUModel.Gen.MockEquals
 /-!
 Driver for C09.
@@ -29,34 +30,62 @@ def bytes? (s : String) : Option (List UInt8) := Proto.unhex? s
 
 /-! ## model side -/
 
-def comparatorFor (ty : String) : Option (Nat → Nat → Bool) :=
-  if ty == "CmpMod3" then some (fun a b => a % 3 == b % 3)
-  else if ty == "CmpId" then some (fun a b => a == b)
-  else none
+/-- behaviour of the harness' comparator objects 1..4 -/
+def comparatorSem (id a b : Nat) : Bool :=
+  if id == 1 then a % 3 == b % 3 else if id == 2 then a == b else if id == 3 then true else false
 
-def mvalOf (tok : String) : Option MVal :=
+def comparatorText (id : Option Nat) (a : Nat) : Bytes :=
+  match id with
+  | some 1 => decNat a
+  | some 2 => decNat a
+  | some 3 => ascii "T" ++ decNat a
+  | _ => []
+
+/-- state of a case: the four repositories, which one is the default, the value list (items = sequence number, type name) -/
+structure DState where
+  repos : List Repo := [[{ name := "CmpId", comparator := some 2, copier := none },
+                         { name := "CmpMod3", comparator := some 1, copier := none }], [], [], []]
+  dflt : Option Nat := some 0
+  list : NList (Nat × String) := []
+  next : Nat := 1
+
+def DState.defaultRepo (st : DState) : Option Repo := st.dflt.bind fun i => st.repos[i]?
+
+def cstr (b : Bytes) : Bytes := b.takeWhile (· != 0)    -- a C string ends at its first NUL
+
+/-- value token ↦ the value, and the comparator / copier the setter found (object values only) -/
+def mvalOf (st : DState) (tok : String) : Option (MVal × Option Nat × Option Nat) :=
+  let plain (v : Option MVal) := v.map fun v => (v, none, none)
   match splitTok tok with
-  | ["int", n] => n.toInt?.map fun v => .int (BitVec.ofInt 32 v)
-  | ["uint", n] => n.toInt?.map fun v => .uint (BitVec.ofInt 32 v)
-  | ["long", n] => n.toInt?.map fun v => .long (BitVec.ofInt 64 v)
-  | ["ulong", n] => n.toInt?.map fun v => .ulong (BitVec.ofInt 64 v)
-  | ["llong", n] => n.toInt?.map fun v => .llong (BitVec.ofInt 64 v)
-  | ["ullong", n] => n.toInt?.map fun v => .ullong (BitVec.ofInt 64 v)
-  | ["bool", "0"] => some (.bool false)
-  | ["bool", "1"] => some (.bool true)
+  | ["int", n] => plain (n.toInt?.map fun v => .int (BitVec.ofInt 32 v))
+  | ["uint", n] => plain (n.toInt?.map fun v => .uint (BitVec.ofInt 32 v))
+  | ["long", n] => plain (n.toInt?.map fun v => .long (BitVec.ofInt 64 v))
+  | ["ulong", n] => plain (n.toInt?.map fun v => .ulong (BitVec.ofInt 64 v))
+  | ["llong", n] => plain (n.toInt?.map fun v => .llong (BitVec.ofInt 64 v))
+  | ["ullong", n] => plain (n.toInt?.map fun v => .ullong (BitVec.ofInt 64 v))
+  | ["bool", "0"] => plain (some (.bool false))
+  | ["bool", "1"] => plain (some (.bool true))
   | ["dbl", v, t] =>
     match hex64? v, hex64? t with
-    | some v, some t => some (.dbl (classify (Float.ofBits v)) (classify (Float.ofBits t)))
+    | some v, some t => plain (some (.dbl (classify (Float.ofBits v)) (classify (Float.ofBits t))))
     | _, _ => none
-  | ["str", "null"] => some (.str none)
-  | ["str", h] => (bytes? h).map fun b => .str (some (b.takeWhile (· != 0)))   -- a C string ends at its first NUL
-  | ["mem", h] => (bytes? h).map .mem
-  | ["ptr", k] => k.toNat?.map .ptr
-  | ["cptr", k] => k.toNat?.map .cptr
-  | ["fptr", k] => k.toNat?.map .fptr
-  | ["obj", ty, k] => k.toNat?.map fun k => .obj ty k (comparatorFor ty)
-  | ["cobj", ty, k] => k.toNat?.map fun k => .obj ty k (comparatorFor ty)
+  | ["dbld", v] =>       -- setValue(double): the default tolerance
+    match hex64? v with
+    | some v => plain (some (.dbl (classify (Float.ofBits v)) (classify Gen.MockEquals.defaultDoubleTolerance)))
+    | none => none
+  | ["str", "null"] => plain (some (.str none))
+  | ["str", h] => plain ((bytes? h).map fun b => .str (some (cstr b)))
+  | ["mem", h] => plain ((bytes? h).map .mem)
+  | ["ptr", k] => plain (k.toNat?.map .ptr)
+  | ["cptr", k] => plain (k.toNat?.map .cptr)
+  | ["fptr", k] => plain (k.toNat?.map .fptr)
+  | ["obj", ty, k] | ["cobj", ty, k] =>
+    k.toNat?.map fun k =>
+      let l := lookupForType st.defaultRepo ty
+      (setObjectPointer st.defaultRepo comparatorSem ty k, l.1, l.2)
   | _ => none
+
+def tokKind (tok : String) : String := (splitTok tok).headD ""
 
 def b01 (b : Bool) : String := if b then "1" else "0"
 
@@ -65,24 +94,138 @@ def showGet (name : String) (signed : Bool) {w : Nat} (r : Except Fail (BitVec w
   | .ok v => s!"{name} ok {if signed then v.toInt else (v.toNat : Int)}"
   | .error _ => s!"{name} fail"
 
-def modelStep (_ : Unit) (op : List String) (_ : List (List String)) : Unit × List String :=
+def showX {α} (name : String) (render : α → String) (r : Except Fail α) : String :=
+  match r with
+  | .ok v => s!"{name} ok {render v}"
+  | .error _ => s!"{name} fail"
+
+def hex16 (u : UInt64) : String :=
+  String.ofList ((List.range 16).map fun i => Proto.hexDigit ((u.toNat >>> (4 * (15 - i))) % 16))
+
+def showD : D Float → String
+  | .nan => "nan"
+  | .inf neg => if neg then "inf-" else "inf+"
+  | .fin x => hex16 x.toBits
+
+def idStr (o : Option Nat) : String := toString (o.getD 0)
+
+def obsBytes (tag : String) (obs : List (List String)) : Option Bytes :=
+  obs.findSome? fun l => match l with
+    | [t, h] => if t == tag then bytes? h else none
+    | _ => none
+def obsNat (tag : String) (obs : List (List String)) : Option Nat :=
+  obs.findSome? fun l => match l with
+    | [t, n] => if t == tag then n.toNat? else none
+    | _ => none
+
+def nameArg (w : String) : Option (Option Bytes) :=
+  if w == "null" then some none else (bytes? w).map fun b => some (cstr b)
+
+def setRepo (st : DState) (i : Nat) (r : Repo) : DState := { st with repos := st.repos.set i r }
+
+def modelStep (st : DState) (op : List String) (obs : List (List String)) : DState × List String :=
   match op with
   | ["eq", ta, tb] =>
-    match mvalOf ta, mvalOf tb with
-    | some a, some b => ((), [s!"r {b01 (Gen.MockEquals.equalsGen a b)} {b01 (Gen.MockEquals.equalsGen b a)}"])
-    | _, _ => ((), ["bad-op"])
+    match mvalOf st ta, mvalOf st tb with
+    | some (a, _, _), some (b, _, _) => (st, [s!"r {b01 (Gen.MockEquals.equalsGen a b)} {b01 (Gen.MockEquals.equalsGen b a)}"])
+    | _, _ => (st, ["bad-op"])
+  | ["compat", ta, tb] =>
+    match mvalOf st ta, mvalOf st tb with
+    | some (a, _, _), some (b, _, _) =>
+      (st, [s!"c {b01 (Gen.MockEquals.compatibleForCopyingGen a b)} {b01 (Gen.MockEquals.compatibleForCopyingGen b a)}"])
+    | _, _ => (st, ["bad-op"])
+  | ["tostr", ta] =>
+    match mvalOf st ta with
+    | some (a, cmp, _) =>
+      -- environment inputs: libc's %.6g rendering and the machine address, as the implementation reported them
+      let env : Env := { g6 := (obsBytes "g6" obs).getD [], addrOf := fun _ => (obsNat "addr" obs).getD 0,
+                         valueToString := comparatorText cmp }
+      let envLines := obs.filterMap fun l => match l with
+        | ["g6", h] => some s!"g6 {h}"
+        | ["addr", n] => some s!"addr {n}"
+        | _ => none
+      (st, envLines ++ [s!"t {Proto.hex (ascii a.type_)}", s!"s {Proto.hex (Gen.MockEquals.toStringGen env a)}"])
+    | none => (st, ["bad-op"])
+  | ["name", x, y] =>
+    match nameArg x, nameArg y with
+    | some x, some y =>
+      let v := NamedValue.new (simpleStringOfCStr x)
+      let env : Env := { g6 := [], addrOf := fun _ => 0, valueToString := fun _ => [] }
+      (st, [s!"n0 {Proto.hex v.getName}", s!"t0 {Proto.hex (ascii v.val.type_)}",
+            s!"s0 {Proto.hex (Gen.MockEquals.toStringGen env v.val)}", s!"n1 {Proto.hex (v.setName y).getName}"])
+    | _, _ => (st, ["bad-op"])
   | ["get", ta] =>
-    match mvalOf ta with
-    | some a => ((), [
+    match mvalOf st ta with
+    | some (a, _, _) => (st, [
         showGet "getIntValue" Gen.MockEquals.getIntValueSigned (Gen.MockEquals.getIntValueGen a),
         showGet "getUnsignedIntValue" Gen.MockEquals.getUnsignedIntValueSigned (Gen.MockEquals.getUnsignedIntValueGen a),
         showGet "getLongIntValue" Gen.MockEquals.getLongIntValueSigned (Gen.MockEquals.getLongIntValueGen a),
         showGet "getUnsignedLongIntValue" Gen.MockEquals.getUnsignedLongIntValueSigned (Gen.MockEquals.getUnsignedLongIntValueGen a),
         showGet "getLongLongIntValue" Gen.MockEquals.getLongLongIntValueSigned (Gen.MockEquals.getLongLongIntValueGen a),
         showGet "getUnsignedLongLongIntValue" Gen.MockEquals.getUnsignedLongLongIntValueSigned (Gen.MockEquals.getUnsignedLongLongIntValueGen a)])
-    | none => ((), ["bad-op"])
-  | ["skip"] => ((), [])
-  | _ => ((), ["bad-op"])
+    | none => (st, ["bad-op"])
+  | ["getx", ta] =>
+    match mvalOf st ta with
+    | some (a, cmp, cop) =>
+      let isObj := tokKind ta == "obj" || tokKind ta == "cobj"
+      (st, [
+        showX "getBoolValue" b01 (Gen.MockEquals.getBoolValueGen a),
+        showX "getDoubleValue" showD (Gen.MockEquals.getDoubleValueGen a),
+        showX "getDoubleTolerance" showD (Gen.MockEquals.getDoubleToleranceGen a),
+        showX "getStringValue" (fun (s : Option Bytes) => match s with | none => "null" | some b => Proto.hex b) (Gen.MockEquals.getStringValueGen a),
+        showX "getPointerValue" (fun (k : Nat) => toString k) (Gen.MockEquals.getPointerValueGen a),
+        showX "getConstPointerValue" (fun (k : Nat) => toString k) (Gen.MockEquals.getConstPointerValueGen a),
+        showX "getFunctionPointerValue" (fun (k : Nat) => toString k) (Gen.MockEquals.getFunctionPointerValueGen a),
+        showX "getMemoryBuffer" (fun (b : Bytes) => Proto.hex b) (Gen.MockEquals.getMemoryBufferGen a),
+        showX "getSize" (fun (n : BitVec 64) => toString n.toNat) (Gen.MockEquals.getSizeGen a)]
+        ++ (if isObj then [
+          showX "getObjectPointer" (fun (k : Nat) => toString k) (Gen.MockEquals.getObjectPointerGen a),
+          showX "getConstObjectPointer" (fun (k : Nat) => toString k) (Gen.MockEquals.getConstObjectPointerGen a)] else [])
+        ++ [s!"getComparator ok {idStr cmp}", s!"getCopier ok {idStr cop}"])
+    | none => (st, ["bad-op"])
+  | ["ladd", n, ta] =>
+    match nameArg n, mvalOf st ta with
+    | some (some name), some (a, _, _) =>
+      ({ st with list := st.list.add (name, (st.next, a.type_)), next := st.next + 1 }, [s!"added {st.next}"])
+    | _, _ => (st, ["bad-op"])
+  | ["lget", n] =>
+    match nameArg n with
+    | some (some name) =>
+      match st.list.getValueByName name with
+      | some (seq, _) => (st, [s!"item {seq}"])
+      | none => (st, ["item none"])
+    | _ => (st, ["bad-op"])
+  | ["llist"] => (st, st.list.map fun (n, (seq, ty)) => s!"it {seq} {Proto.hex n} {Proto.hex (ascii ty)}")
+  | ["lclear"] => ({ st with list := st.list.clear, next := st.next }, [])
+  | ["rcmp", r, ty, id] =>
+    match r.toNat?, id.toNat? with
+    | some r, some id => (setRepo st r ((st.repos.getD r []).installComparator ty id), [])
+    | _, _ => (st, ["bad-op"])
+  | ["rcop", r, ty, id] =>
+    match r.toNat?, id.toNat? with
+    | some r, some id => (setRepo st r ((st.repos.getD r []).installCopier ty id), [])
+    | _, _ => (st, ["bad-op"])
+  | ["rget", r, ty] =>
+    match r.toNat? with
+    | some r =>
+      let rp := st.repos.getD r []
+      (st, [s!"got {idStr (rp.getComparatorForType ty)} {idStr (rp.getCopierForType ty)}"])
+    | none => (st, ["bad-op"])
+  | ["rimport", r, r2] =>
+    match r.toNat?, r2.toNat? with
+    | some r, some r2 => (setRepo st r ((st.repos.getD r []).installAll (st.repos.getD r2 [])), [])
+    | _, _ => (st, ["bad-op"])
+  | ["rclear", r] =>
+    match r.toNat? with
+    | some r => (setRepo st r (st.repos.getD r []).clear, [])
+    | none => (st, ["bad-op"])
+  | ["rdefault", "none"] => ({ st with dflt := none }, [])
+  | ["rdefault", r] =>
+    match r.toNat? with
+    | some r => ({ st with dflt := some r }, [])
+    | none => (st, ["bad-op"])
+  | ["skip"] => (st, [])
+  | _ => (st, ["bad-op"])
 
 /-! ## specification oracle -/
 
@@ -124,6 +267,9 @@ def svalOf (tok : String) : Except String SVal :=
       | "mem", h => match bytes? h with
         | some b => .ok (.mem b)
         | none => .error s!"{tok}: bad hex"
+      | "dbld", h => match hex64? h with
+        | some v => .ok (.dbl (Float.ofBits v) 0.005)      -- the documented default tolerance of setValue(double)
+        | none => .error s!"{tok}: bad double bits"
       | "ptr", k | "cptr", k | "fptr", k => match k.toNat? with
         | some k => .ok (.ptr ty k)
         | none => .error s!"{tok}: bad index"
@@ -194,6 +340,10 @@ def specOp (o : Proto.Op) : Except String Unit := do
         | _ => throw s!"{g}: no (or an inconsistent) observation"
     | _ => pure ()
   | ["skip"] => pure ()
+  -- the property speaks about equality and the integer getters only: the other operations are checked by the
+  -- model/implementation correspondence
+  | "compat" :: _ | "tostr" :: _ | "name" :: _ | "getx" :: _ | "ladd" :: _ | "lget" :: _ | ["llist"] | ["lclear"]
+  | "rcmp" :: _ | "rcop" :: _ | "rget" :: _ | "rimport" :: _ | "rclear" :: _ | "rdefault" :: _ => pure ()
   | _ => throw "bad-op"
 
 def specAll (ops : List Proto.Op) : Option String :=
@@ -206,4 +356,4 @@ def specAll (ops : List Proto.Op) : Option String :=
   go 0 ops
 
 def main : IO Unit :=
-  Proto.driverMain { init := (), step := modelStep, spec := specAll }
+  Proto.driverMain { init := ({} : DState), step := modelStep, spec := specAll }
